@@ -242,8 +242,10 @@ impl Callback for SimpleStats {
             if crate::verif::on() {
                 let types: Vec<String> = tx.value.outputs.iter().map(|o| crate::verif::js(&format!("{}", o.script.pattern))).collect();
                 let vals: Vec<String> = tx.value.outputs.iter().map(|o| format!("\"{}\"", o.out.value)).collect();
-                crate::verif::ev("stx", &format!("\"h\":{},\"txid\":\"{}\",\"cb\":{},\"nin\":{},\"size\":{},\"vals\":[{}],\"types\":[{}]",
-                    block_height, tx.hash, tx.value.is_coinbase(), tx.value.in_count.value, tx_size, vals.join(","), types.join(",")));
+                crate::verif::ev("stx", &format!("\"h\":{},\"txid\":\"{}\",\"cb\":{},\"in0_null\":{},\"nin\":{},\"size\":{},\"vals\":[{}],\"types\":[{}]",
+                    block_height, tx.hash, tx.value.is_coinbase(),
+                    tx.value.inputs.first().map(|i| i.outpoint.index == 0xFFFFFFFF && i.outpoint.txid.as_ref() == [0u8; 32]).unwrap_or(false),
+                    tx.value.in_count.value, tx_size, vals.join(","), types.join(",")));
             }
         }
 
